@@ -157,7 +157,7 @@ enum Work {
     Coeffs(&'static str, [u64; 4], Vec<[u64; 4]>),
     /// bits over the degree-4 extension: n, x (base value), digits as extension elements
     /// (u64::MAX-k encodes -k)
-    BitsExt(usize, u64, Vec<[u64; 4]>),
+    BitsExt(usize, [u64; 4], Vec<[u64; 4]>),
 }
 
 struct Case {
@@ -256,9 +256,45 @@ fn bits_ext_cases(n: usize, xs: &[u64], out: &mut Vec<Case>) {
                 class,
                 detail: format!("x={xv} {detail}"),
                 canonical,
-                work: Work::BitsExt(n, xv, digits),
+                work: Work::BitsExt(n, [xv, 0, 0, 0], digits),
             });
         }
+    }
+}
+
+/// decompose_to_bits over several limbs (n > 31 in a degree-4 circuit: limb i collects bits
+/// 31·i .. 31·(i+1) and sits on basis element X^i): non-boolean digits inside either limb, and
+/// digits with an extension component.
+fn bits_multilimb_cases(n: usize, x: [u64; 4], out: &mut Vec<Case>) {
+    const W: usize = 31;
+    let canon: Vec<[u64; 4]> = (0..n).map(|i| [(x[i / W] >> (i % W)) & 1, 0, 0, 0]).collect();
+    let mut alts: Vec<(&'static str, String, Vec<[u64; 4]>, bool)> = vec![("canonical", "bits of the coefficients".into(), canon.clone(), true)];
+    let mut pairs: Vec<usize> = vec![0, 1, W - 2];
+    pairs.extend((W..n - 1).filter(|i| *i == W || *i == n - 2));
+    for &i in &pairs {
+        if i / W != (i + 1) / W {
+            continue;
+        }
+        // digit i += 2, digit i+1 -= 1 : limb unchanged, digits not boolean
+        let mut d = canon.clone();
+        d[i][0] += 2;
+        d[i + 1][0] = if d[i + 1][0] == 0 { u64::MAX } else { d[i + 1][0] - 1 };
+        alts.push(("non_boolean_digits", format!("digit{i}+=2,digit{}-=1", i + 1), d, false));
+        for e in [1usize, 3] {
+            let mut d = canon.clone();
+            d[i][e] = 2;
+            d[i + 1][e] = u64::MAX;
+            alts.push(("digits_with_extension_component", format!("digit{i}+=2·X^{e},digit{}-=X^{e}", i + 1), d, false));
+        }
+    }
+    for (class, detail, digits, canonical) in alts {
+        out.push(Case {
+            site: format!("decompose_to_bits(n={n},multi-limb)/babybear-d4"),
+            class,
+            detail: format!("x={x:?} {detail}"),
+            canonical,
+            work: Work::BitsExt(n, x, digits),
+        });
     }
 }
 
@@ -332,7 +368,7 @@ fn run_case(w: &Work) -> Outcome {
             let c = bits_circuit_ext(*n);
             let f = |v: u64| if v == u64::MAX { BB::NEG_ONE } else { BB::from_u64(v) };
             let d: Vec<BB4> = digits.iter().map(|c| ext_from::<BB, BB4>(&c.iter().map(|v| f(*v)).collect::<Vec<_>>())).collect();
-            let mut pubs = vec![BB4::from_u64(*xv)];
+            let mut pubs = vec![ext_from::<BB, BB4>(&xv.iter().map(|v| f(*v)).collect::<Vec<_>>())];
             pubs.extend(d.iter().map(|x| *x * BB4::from_u64(K)));
             match with_hint(&c, 0, d) {
                 Some(c2) => {
@@ -482,6 +518,9 @@ fn main() {
     }
     for n in if ctx.quick() { vec![2usize, 3, 8] } else { vec![1, 2, 3, 4, 8, 16, 31] } {
         bits_ext_cases(n, &[0, 1, 2, 5], &mut cases);
+    }
+    for (n, x) in [(33usize, [5u64, 2, 0, 0]), (62, [5, 2, 0, 0]), (62, [0, 0, 0, 0]), (64, [1, 3, 1, 0])] {
+        bits_multilimb_cases(n, x, &mut cases);
     }
     for mode in ["alu", "npo", "npo_coeff"] {
         coeff_cases(mode, &mut cases);
